@@ -40,6 +40,15 @@ Definition spec_forward_view (m : members) (pfx : option string) (e : expose) : 
         (filter (visible_fun e) (map (rename pfx) (m_funs m)))
         (filter (visible_fun e) (map (rename pfx) (m_mixins m))).
 
+(* built-in modules can be neither configured nor assigned to - also when their members reach the user
+   through a forwarding module; the forwarding module's own !default variable can be both *)
+Definition spec_fwd_builtin (a : fb_action) (pfx : option string) (e : expose) : fb_res :=
+  match a with
+  | FAssignBuiltin | FConfigBuiltin => FErr
+  | FAssignOwn | FConfigOwn => FOk 3
+  | FReadBuiltin => if visible_var e (rename pfx "pi") then FOk 0 else FErr
+  end.
+
 (* `with` sets only variables the module declares with !default; configuring an unknown or an
    already configured variable is an error *)
 Definition declares_default (decls : list (string * Z * bool)) (k : string) : bool :=
